@@ -123,7 +123,18 @@ def adaptive(rule: str, run: Any, limit: int = 9) -> Any:
     raise AnalysisError(rule, "domain did not stabilise")
 
 
+_VARIANT = [0]
+
+
 def mk_feature(name: str, parent: Optional[AObj] = None, **extra: Any) -> AObj:
+    """A feature of an abstract context. The fields the tree queries must NOT depend on (abstract flag, feature
+    cardinality, attributes) take different values from one feature to the next, so that a query which looks at them
+    disagrees with its definition on some context instead of leaving the fragment."""
+    _VARIANT[0] += 1
+    lo, hi, ab = ((1, 1, False), (0, 3, True), (2, 2, False), (0, 1, True), (1, -1, False))[_VARIANT[0] % 5]
+    extra.setdefault("is_abstract", ab)
+    extra.setdefault("feature_cardinality", AObj("Cardinality", min=lo, max=hi))
+    extra.setdefault("attributes", [])
     f = AObj("Feature", name=name, parent=parent, relations=[], **extra)
     return f
 
